@@ -155,9 +155,10 @@ def run_case(item):
     # (the interpreter's own traceback of an uncaught error goes to standard ERROR: it is kept
     # apart and does not count as "an error on the runtime log")
     to_stdout = seed % 3 == 1
+    to_stderr = seed % 6 == 5   # the default target: shared with the interpreter's own messages
     errfile = os.path.join(d, "stderr.txt")
     outfile = os.path.join(d, "stdout.txt")
-    proc = subprocess.Popen([sys.executable, "-m", "cobald.daemon", cfgpath, "--log-target", "stdout" if to_stdout else logfile, "--log-level", "DEBUG"], env=env, stdout=open(outfile, "wb"), stderr=open(errfile, "wb"), preexec_fn=lambda: signal.signal(signal.SIGINT, signal.SIG_DFL), cwd=d)
+    proc = subprocess.Popen([sys.executable, "-m", "cobald.daemon", cfgpath, "--log-target", "stdout" if to_stdout else "stderr" if to_stderr else logfile, "--log-level", "DEBUG"], env=env, stdout=open(outfile, "wb"), stderr=open(errfile, "wb"), preexec_fn=lambda: signal.signal(signal.SIGINT, signal.SIG_DFL), cwd=d)
     svcs = set(case["svcs"])
 
     def read_events():
@@ -204,9 +205,15 @@ def run_case(item):
     if to_stdout:
         log += out
     try:
-        out += open(errfile, errors="replace").read()
+        err = open(errfile, errors="replace").read()
     except FileNotFoundError:
-        pass
+        err = ""
+    out += err
+    if to_stderr:
+        # what the logging system wrote there is recognised by its record prefix
+        # ("2026-10-03 12:00:00 (pid) message"); the interpreter's own traceback has none
+        import re
+        log += "\n".join(l for l in err.splitlines() if re.match(r"^\d{4}-\d\d-\d\d \d\d:\d\d:\d\d\s+\(\d+\) ", l))
     if sectionlog:
         try:
             log += open(sectionlog).read()
